@@ -29,6 +29,11 @@ class WriterTable:
     literal_lines: List[Term]
     frame_node: ast.AST
     lines_node: ast.AST
+    reordered: list = field(default_factory=list)   # [(methods, to_csv event)]: paths on which rows are moved / dropped after the index was set
+
+
+_ROW_MOVERS = {"sort_values", "sort_index", "sample", "iloc", "loc", "reindex", "drop_duplicates", "head", "tail", "reset_index",
+               "nlargest", "nsmallest", "dropna", "query"}
 
 
 def _const_str(t: Term) -> Optional[str]:
@@ -39,11 +44,35 @@ def extract_writer(ck) -> WriterTable:
     ctx = ck.ctx
     fn = ctx.p.find_method("XmapReader", "writeAlignments")
     out = {}
+    reordered = []
     for inline in (0, 1):
         paths = explore(ck, fn, inline=inline, inline_ok=(lambda f: f.is_property) if inline else None)
         paths = [p for p in paths if p.outcome in ("fall", "return")]
         if len(paths) != 1:
-            raise AnalysisError(f"{fn.where}: writeAlignments is expected to be straight-line code, found {len(paths)} paths")
+            # the one recognised deviation: on some path the frame is re-ordered / reduced between its construction and to_csv
+            direct, moved = [], []
+            for p0 in paths:
+                evs = [e for e in p0.events if e.kind == "call" and e.term[0] == "mcall" and e.term[2] == "to_csv"]
+                if len(evs) != 1:
+                    direct = []
+                    break
+                r0 = evs[0].term[1]
+                chain = []
+                while r0[0] == "mcall":
+                    chain.append(r0[2])
+                    r0 = r0[1]
+                if r0[0] == "call" and r0[1].endswith("DataFrame") and not chain:
+                    direct.append(p0)
+                elif r0[0] == "call" and r0[1].endswith("DataFrame") and set(chain) <= _ROW_MOVERS:
+                    moved.append((chain, evs[0]))
+                else:
+                    direct = []
+                    break
+            if len(direct) != 1 or len(direct) + len(moved) != len(paths):
+                raise AnalysisError(f"{fn.where}: writeAlignments is expected to be straight-line code, found {len(paths)} paths")
+            out[inline] = direct[0]
+            reordered = moved
+            continue
         out[inline] = paths[0]
     pa = out[0]
     lines_ev = None
@@ -108,7 +137,7 @@ def extract_writer(ck) -> WriterTable:
     ev0, keys, vals, rows_term, idx = frame_of(out[0])
     _, _, vals_inl, _, _ = frame_of(out[1])
     return WriterTable(fn, header_dict, names, types, names_joiner, types_joiner, keys, vals, vals_inl, ("bv", 0),
-                       rows_term, idx, dict(ev0.term[4]), literal_lines, ev0.node, lines_ev.node)
+                       rows_term, idx, dict(ev0.term[4]), literal_lines, ev0.node, lines_ev.node, reordered)
 
 
 def row_attrs(t: Term, row: Term = ("bv", 0)) -> List[str]:
